@@ -18,8 +18,10 @@ import (
 
 var replayProp string
 
-// replaySiblings: assertion ids the symbolic run of the current harness found violable; a native failure of a
-// different assertion counts as reproduction only if it is one of these (the model predicted it too).
+// replaySiblings: assertion ids the symbolic run of the current harness found violable (kept for the evidence
+// notes). A native failure of a different assertion of the same property counts as reproduction: every assertion
+// the native twin evaluates is exact there (facts only the model observes go through vAssertModel, which the
+// native twin does not evaluate), and the concrete run often trips over an earlier statement of the same fact.
 var replaySiblings map[string]bool
 
 var (
@@ -241,7 +243,7 @@ func replayNative(harness, target string, inputs map[string]interface{}, f *sx.F
 	// the same fact): that still is a reproduced violation of the property
 	if replayProp != "" {
 		for _, x := range r.Failed {
-			if assertionBelongsTo(x, replayProp) && (replaySiblings == nil || replaySiblings[x]) {
+			if assertionBelongsTo(x, replayProp) {
 				return true, "reproduced as " + x
 			}
 		}
